@@ -45,6 +45,14 @@ template <class C> static int check_iters(C& v, const std::vector<P>& m, const c
     i = 0; for (auto it = cv.cbegin(); it != cv.cend(); ++it, ++i) if (i >= m.size() || (*it).value() != m[i].first || (*it).has_value() != m[i].second) { std::printf("%s: const iterator shows a wrong pair at %zu\n", what, i); return 1; }
     i = 0; for (auto it = v.rbegin(); it != v.rend(); ++it, ++i) { std::size_t k = m.size() - 1 - i; if (i >= m.size() || (*it).value() != m[k].first || (*it).has_value() != m[k].second) { std::printf("%s: reverse iterator shows a wrong pair at %zu\n", what, i); return 1; } }
     if (i != m.size()) { std::printf("%s: rbegin()..rend() visits %zu elements\n", what, i); return 1; }
+    // random-access jumps in both directions keep value and flag paired (it += n, it -= n, it + n, it - n, it[n])
+    for (std::size_t a = 0; a < m.size(); ++a) for (std::size_t b = 0; b < m.size(); ++b) {
+        auto it = v.begin() + (std::ptrdiff_t)a; std::ptrdiff_t d = (std::ptrdiff_t)b - (std::ptrdiff_t)a;
+        auto j1 = it; j1 += d; auto j2 = it; j2 -= -d; auto j3 = it + d; auto j4 = it - (-d);
+        for (auto* j : {&j1, &j2, &j3, &j4}) if ((**j).value() != m[b].first || (**j).has_value() != m[b].second || !(*j == v.begin() + (std::ptrdiff_t)b) || (*j - it) != d)
+            { std::printf("%s: iterator jump from %zu by %ld shows a wrong pair / position\n", what, a, (long)d); return 1; }
+        if (it[d].value() != m[b].first || it[d].has_value() != m[b].second) { std::printf("%s: it[n] from %zu by %ld shows a wrong pair\n", what, a, (long)d); return 1; }
+        if (m.size() > 12) break; }
     return 0;
 }
 static int run_optional_vector()
